@@ -56,11 +56,20 @@ class MeshLine1(MeshSimplex, Mesh):
         newt[1, ::2] = newt[0, 1::2]
         newt[1, 1::2] = t[1]
 
+        # the children of element k are the elements 2 * k and 2 * k + 1
+        subdomains = None
+        if self._subdomains is not None:
+            subdomains = {
+                name: np.sort(np.concatenate((2 * np.asarray(ixs),
+                                              2 * np.asarray(ixs) + 1)))
+                for name, ixs in self._subdomains.items()
+            }
+
         return replace(
             self,
             doflocs=newp,
             t=newt,
-            _subdomains=None,
+            _subdomains=subdomains,
         )
 
     def _adaptive(self, marked):
